@@ -218,6 +218,151 @@ def _alpha_plane_rule(ctx, blp):
             ctx.bad(R, key + "|not-evaluable", "%s:%d" % (dec.file, asg.get("ln") or 0), "alpha expression not evaluable: %s" % e, "shape changed")
 
 
+
+def _numval(n, env, lets, ty, depth=0):
+    """value of a numeric expression with Rust semantics for the float <-> integer steps a quantiser uses: `as f64/f32`,
+    float arithmetic (IEEE double = Python float; f32 results are rounded to single), round/floor/ceil/trunc, and `as uN`
+    (truncation toward zero, saturating).  env: rendered leaf -> value; locals resolve through their `let`"""
+    import math
+    import struct
+    n = hirq.strip(n)
+    if depth > 14:
+        raise ValueError("depth")
+    r = hirq.render(n)
+    if r in env:
+        return env[r]
+    k = n.get("k")
+    t = ty(n.get("t")) or ""
+
+    def f32(x):
+        return struct.unpack("f", struct.pack("f", x))[0] if t == "f32" and isinstance(x, float) else x
+    if k == "lit":
+        v = n["v"]
+        if "float" in v:
+            return f32(float(str(v["float"]).replace("_", "").rstrip("f3264").rstrip("_") or 0))
+        if "int" in v:
+            return float(v["int"]) if t in ("f32", "f64") else int(v["int"])
+    if k == "path" and "local" in n["res"]:
+        nm = n["res"]["local"]
+        if nm in lets:
+            return _numval(lets[nm], env, lets, ty, depth + 1)
+        raise ValueError(nm)
+    if k == "block" and not n.get("stmts") and n.get("e") is not None:
+        return _numval(n["e"], env, lets, ty, depth + 1)
+    if k == "cast":
+        v = _numval(n["e"], env, lets, ty, depth + 1)
+        if t in ("f64", "f32"):
+            return f32(float(v))
+        m_ = re.fullmatch(r"([ui])(8|16|32|64|size)", t)
+        if m_:
+            bits = 64 if m_.group(2) == "size" else int(m_.group(2))
+            lo, hi = (0, (1 << bits) - 1) if m_.group(1) == "u" else (-(1 << (bits - 1)), (1 << (bits - 1)) - 1)
+            if isinstance(v, float):
+                if math.isnan(v):
+                    return 0
+                return max(lo, min(hi, int(math.trunc(v))))          # float -> int `as` saturates
+            v &= (1 << bits) - 1                                      # int -> int `as` truncates
+            return v - (1 << bits) if m_.group(1) == "i" and v > hi else v
+        raise ValueError("cast to " + t)
+    if k == "bin":
+        a, b = _numval(n["l"], env, lets, ty, depth + 1), _numval(n["r"], env, lets, ty, depth + 1)
+        op = n["op"]
+        if isinstance(a, float) or isinstance(b, float):
+            if op == "/" and b == 0:
+                raise ValueError("division by zero")
+            return f32({"+": a + b, "-": a - b, "*": a * b, "/": a / b if op == "/" else 0.0}[op]) if op in "+-*/" else (_ for _ in ()).throw(ValueError(op))
+        if op in ("/", "%") and b == 0:
+            raise ValueError("division by zero")
+        tab = {"+": a + b, "-": a - b, "*": a * b, "/": a // b if b else 0, "%": a % b if b else 0, "&": a & b, "|": a | b, "^": a ^ b,
+               "<<": a << b if 0 <= b < 64 else 0, ">>": a >> b if 0 <= b < 64 else 0}
+        if op not in tab:
+            raise ValueError(op)
+        v = tab[op]
+        m_ = re.fullmatch(r"u(8|16|32|64)", t)
+        if m_ and op == "<<":
+            v &= (1 << int(m_.group(1))) - 1
+        return v
+    if k == "mcall" and not n.get("args") and n["m"] in ("round", "floor", "ceil", "trunc"):
+        v = _numval(n["recv"], env, lets, ty, depth + 1)
+        if n["m"] == "round":                                        # Rust rounds half away from zero
+            return float(math.floor(abs(v) + 0.5)) * (1.0 if v >= 0 else -1.0)
+        return float({"floor": math.floor, "ceil": math.ceil, "trunc": math.trunc}[n["m"]](v))
+    if k == "mcall" and n["m"] in ("min", "max", "clamp") and n.get("args"):
+        vs = [_numval(n["recv"], env, lets, ty, depth + 1)] + [_numval(a, env, lets, ty, depth + 1) for a in n["args"]]
+        return min(vs) if n["m"] == "min" else max(vs) if n["m"] == "max" else max(vs[1], min(vs[2], vs[0]))
+    if k == "call" and (n.get("fn") or "").endswith("::from") and len(n.get("args") or []) == 1:
+        v = _numval(n["args"][0], env, lets, ty, depth + 1)
+        return float(v) if t in ("f32", "f64") else v
+    if k == "if":
+        raise ValueError("conditional")
+    raise ValueError(r[:50])
+
+
+def _alpha_quantiser_rule(ctx, blp):
+    """"alpha is the source alpha quantised to the declared depth": where the packer rescales the 8-bit alpha to W bits (W = 4), the
+    level it stores must be the one the *unpacker's* expansion brings closest to the source value.  Both sides are read from the
+    code: the stored level q(a) is the value OR-ed into the plane (evaluated for every a in 0..=255 with Rust's float / cast
+    semantics), the expansion d(v) is the unpacker's alpha expression for a plane holding v.  Required: |d(q(a)) - a| = min_v |d(v) - a|."""
+    from .c10 import _ival, _bval, _NoEval
+    R = ctx.rule("C16.alpha-quantiser-picks-the-nearest-level-of-the-unpacker", "for the 4-bit palettised alpha: for every source alpha 0..=255 the level index_alpha_4bit stores is, after raw1_to_image's expansion, a level nearest to the source (256 evaluations against the 16 expanded levels)", floor=1)
+    dec = next((x for x in blp.fn_list if x.hir and x.kind != "Closure" and norm(x.path).endswith("convert::raw1::raw1_to_image")), None)
+    enc = next((x for x in blp.fn_list if x.hir and x.kind != "Closure" and norm(x.path).endswith("convert::raw1::index_alpha_4bit")), None)
+    if dec is None or enc is None:
+        ctx.bad(R, "alpha4|missing", "-", "index_alpha_4bit / raw1_to_image not found", "anchor gone")
+        return
+    ctx.saw_fn(enc)
+    W = 4
+    ors = [n for n in hirq.walk(enc.hir["body"]) if n.get("k") == "assignop" and n.get("op") in ("|=", "BitOr", "|") and hirq.strip(n["l"]).get("k") == "index"]
+    lp = next((l for l in hirq.find(enc.hir["body"], "for") if ors and any(x is ors[0] for x in hirq.walk(l["body"]))), None)
+    if len(ors) != 1 or lp is None:
+        ctx.bad(R, "alpha4|packer-shape", enc.where, "no single `res[i] |= ..` inside a pixel loop", "shape changed")
+        return
+    sh = next((x for x in hirq.walk(ors[0]["r"]) if x.get("k") == "bin" and x["op"] == "<<"), None)
+    if sh is None:
+        ctx.bad(R, "alpha4|packer-shape", enc.where, "the OR-ed value is not `<level> << <counter>`", "shape changed")
+        return
+    level = sh["l"]
+    pix = next((b for b in hirq.pat_binds(lp["pat"])), "pixel")
+    elets = {l["pat"]["name"]: l["init"] for l in hirq.find(lp["body"], "let") if l["pat"].get("k") == "bind" and l.get("init") is not None}
+    # the unpacker's expansion of a stored level v (plane byte holding v in its low nibble, pixel 0)
+    br = next((n for n in hirq.find(dec.hir["body"], "if") if re.fullmatch(r"\(alpha_bits == %d\)|\(%d == alpha_bits\)" % (W, W), hirq.render(n["c"]))), None)
+    dlp = next((l for l in hirq.find(br["then"], "for") if "pixels_mut()" in hirq.render(l["iter"])), None) if br is not None else None
+    asg = next((a for a in hirq.walk(dlp["body"]) if a.get("k") == "assign" and re.search(r"\[3\]$", hirq.render(a["l"]))), None) if dlp is not None else None
+    if asg is None:
+        ctx.bad(R, "alpha4|unpacker-shape", dec.where, "branch `alpha_bits == 4` with its alpha assignment not found", "shape changed")
+        return
+    dlets = {l["pat"]["name"]: l["init"] for l in hirq.find(dlp["body"], "let") if l["pat"].get("k") == "bind" and l.get("init") is not None}
+    ivar = next((b for b in hirq.pat_binds(dlp["pat"]) if b != "pixel"), "i")
+    try:
+        levels = [_eval_with_plane(asg["r"], {ivar: 0, "__ty__": (lambda t_: blp.ty(t_))}, dlets, [v, 0], _ival, _bval) for v in range(1 << W)]
+    except _NoEval as e:
+        ctx.bad(R, "alpha4|not-evaluable", dec.where, "unpacker expansion not evaluable: %s" % e, "shape changed")
+        return
+    worst = None
+    try:
+        for a in range(256):
+            q = _numval(level, {"%s[3]" % pix: a, "%s.0[3]" % pix: a}, elets, blp.ty)
+            if not isinstance(q, int) or not 0 <= q < (1 << W):
+                worst = (a, q, None, None)
+                break
+            err = abs(levels[q] - a)
+            best = min(abs(lv - a) for lv in levels)
+            if err != best and (worst is None or err - best > worst[2] - worst[3]):
+                worst = (a, q, err, best)
+    except ValueError as e:
+        ctx.bad(R, "alpha4|not-evaluable", "%s:%d" % (enc.file, ors[0].get("ln") or 0), "stored level `%s` not evaluable: %s" % (hirq.render(level)[:60], e), "shape changed")
+        return
+    if worst is None:
+        ctx.ok(R, {"depth": W, "stored_level": hirq.render(elets.get(hirq.render(level), level))[:70], "expanded_levels": levels, "sources": 256})
+    elif worst[2] is None:
+        ctx.bad(R, "alpha4|level-out-of-range", "%s:%d" % (enc.file, ors[0].get("ln") or 0), "source alpha %d is stored as level %r, outside 0..15" % (worst[0], worst[1]), "the level spills into the neighbouring pixel's nibble")
+    else:
+        ctx.bad(R, "alpha4|not-nearest", "%s:%d" % (enc.file, ors[0].get("ln") or 0),
+                "source alpha %d is stored as level %d, which the unpacker expands to %d (off by %d) although level %d would be off by %d" % (
+                    worst[0], worst[1], levels[worst[1]], worst[2], min(range(len(levels)), key=lambda v: abs(levels[v] - worst[0])), worst[3]),
+                "decoded alpha is not the source alpha quantised to the declared depth: the packer's scale (or rounding) is not the inverse of the unpacker's expansion")
+
+
 def _eval_with_plane(expr, env, lets, plane, _ival, _bval):
     """_ival with `X.indexed_alpha[e]` answered from the packed plane (e evaluated first)"""
     from .c10 import _NoEval
@@ -424,6 +569,7 @@ def run(ctx):
     _raw3_unpack_rule(ctx, blp)
     _mip_size_rule(ctx, blp)
     _alpha_plane_rule(ctx, blp)
+    _alpha_quantiser_rule(ctx, blp)
 
     enc = next((f for f in blp.fn_list if norm(f.path) == "wow_blp::encode::encode_header"), None)
     par = next((f for f in blp.fn_list if norm(f.path) == "wow_blp::parser::header::parse_header"), None)
